@@ -103,6 +103,12 @@ SELECTED += [
     ("parse_tag", "packaging.tags", "parse_tag"),
     ("parse_sdist_filename", "packaging.utils", "parse_sdist_filename"),
     ("parse_wheel_filename", "packaging.utils", "parse_wheel_filename"),
+    ("_normalize_string", "packaging.tags", "_normalize_string"),
+    ("interpreter_name", "packaging.tags", "interpreter_name"),
+    ("interpreter_version", "packaging.tags", "interpreter_version"),
+    ("_generic_abi", "packaging.tags", "_generic_abi"),
+    ("generic_tags", "packaging.tags", "generic_tags"),
+    ("sys_tags", "packaging.tags", "sys_tags"),
 ]
 
 # classes whose instances the translated code handles as records `PyVal.obj <class name> <fields>`; attribute access on
@@ -226,6 +232,7 @@ CONSUMERS |= {"frozenset", "set"}
 FULL_LOWER_MODULES = {"packaging.utils"}
 # compiled patterns whose *structure* harness/translators/names.py measures into Gen.NameTables:
 # (module, global name) -> (kind, structure flag, Lean arguments)
+EXTERNAL_READS |= {"sys.implementation.name"}
 MEASURED_PATTERNS = {
     ("packaging.utils", "_canonicalize_regex"): ("class_plus", "Gen.NameTables.canonStructureOk", "Gen.NameTables.separators"),
     ("packaging.utils", "_build_tag_regex"): ("two_runs", "Gen.NameTables.buildStructureOk",
@@ -452,7 +459,10 @@ class Fn:
             fresh = [st for st in body if isinstance(st, ast.Assign) and len(st.targets) == 1
                      and isinstance(st.targets[0], ast.Name) and st.targets[0].id == m and _is_fresh_list(st.value)
                      and st.lineno < first]
-            self.owned_from[m] = fresh[-1].lineno if fresh else 0
+            # x2: a top-level `if` before the first mutation whose every branch ends by binding m to a fresh list
+            fresh += [st for st in body if isinstance(st, ast.If) and st.end_lineno < first and self._if_binds_fresh(st, m)]
+            fresh.sort(key=lambda st: st.lineno)
+            self.owned_from[m] = (fresh[-1].end_lineno if isinstance(fresh[-1], ast.If) else fresh[-1].lineno) if fresh else 0
             if m in self.params() and not fresh:
                 raise Unsupported(f"parameter {m} is mutated in place")
         for n in _walk_scope(body):
@@ -474,7 +484,7 @@ class Fn:
                             raise Unsupported("a list that is mutated in place is bound by unpacking")
                     for tt, vv in pairs:
                         if isinstance(tt, ast.Name) and tt.id in self.mutated and vv is not None and not _is_fresh_list(vv) \
-                                and n.lineno >= self.owned_from[tt.id]:
+                                and not self._fresh_call(vv) and n.lineno >= self.owned_from[tt.id]:
                             raise Unsupported(f"{tt.id} is mutated in place but bound to a value that may be shared")
             if isinstance(n, ast.For):
                 for sub in ast.walk(n.target):
@@ -515,6 +525,51 @@ class Fn:
                     ok = True                                    # truth test inside a condition
                 if not ok:
                     raise Unsupported(f"{n.id} is mutated in place and used where an alias could be created")
+
+    # --- x2: freshness through branches / library functions
+    def _fresh_call(self, v, depth=0):
+        """a call of a function of the library every `return` of which hands back a freshly built list (a display, a
+        comprehension, `list(...)`, a local that only ever holds such lists, or a call of another such function)"""
+        if not (isinstance(v, ast.Call) and isinstance(v.func, ast.Name)) or depth > 3:
+            return False
+        f = self.globals.get(v.func.id)
+        if not inspect.isfunction(f) or not (f.__module__ or "").startswith("packaging"):
+            return False
+        try:
+            node = ast.parse(textwrap.dedent(inspect.getsource(f))).body[0]
+        except (OSError, SyntaxError):
+            return False
+        rets = [n for n in _walk_scope(node.body) if isinstance(n, ast.Return)]
+        if not rets:
+            return False
+        sub = Fn.__new__(Fn)
+        sub.globals = f.__globals__
+        for r in rets:
+            x = r.value
+            if x is None:
+                return False
+            if _is_fresh_list(x) or sub._fresh_call(x, depth + 1):
+                continue
+            if isinstance(x, ast.Name):
+                binds = [n for n in _walk_scope(node.body) if x.id in _targets_of(n)]
+                if binds and x.id not in [a.arg for a in node.args.args + node.args.kwonlyargs] and all(
+                        isinstance(b, ast.Assign) and len(b.targets) == 1 and isinstance(b.targets[0], ast.Name)
+                        and (_is_fresh_list(b.value) or sub._fresh_call(b.value, depth + 1)) for b in binds):
+                    continue
+            return False
+        return True
+
+    def _if_binds_fresh(self, st, m):
+        def last_bind(stmts):
+            for x in reversed(stmts):
+                if isinstance(x, ast.Assign) and len(x.targets) == 1 and isinstance(x.targets[0], ast.Name) and x.targets[0].id == m:
+                    return _is_fresh_list(x.value) or self._fresh_call(x.value)
+                if isinstance(x, ast.If):
+                    return self._if_binds_fresh(x, m)
+                if any(m in _targets_of(y) for y in _walk_scope([x])):
+                    return False
+            return False
+        return bool(st.orelse) and last_bind(st.body) and last_bind(st.orelse)
 
     def _scalar_callee(self, name):
         """a module-level function of packaging whose return annotation is bool/str/int/None: it cannot hand back an
@@ -1584,6 +1639,17 @@ class Fn:
             import typing
             if self.globals.get("cast") is typing.cast:
                 return self.expr(e.args[1])                      # the type argument has no run-time effect
+        # `<module-level dict of constants>.get(k)` / `.get(k, d)`: the current contents of the dict, as an association list
+        if isinstance(f, ast.Attribute) and f.attr == "get" and isinstance(f.value, ast.Name) and f.value.id not in self.locals \
+                and isinstance(self.globals.get(f.value.id), dict) and not kws and len(e.args) in (1, 2):
+            d = self.globals[f.value.id]
+            try:
+                rows = ", ".join(f"({lconst(k)}, {lconst(v)})" for k, v in d.items())
+            except Unsupported:
+                return None
+            self.ctx.imports.add("PkgModel.PyRx")
+            dflt = self.val(e.args[1]) if len(e.args) == 2 else "PyVal.none"
+            return False, f"PyRx.const_dict_get [{rows}] {self.val(e.args[0])} {dflt}"
         if not (isinstance(f, ast.Attribute) and isinstance(f.value, ast.Name) and f.value.id not in self.locals
                 and type(self.globals.get(f.value.id)).__name__ == "Pattern" and not kws):
             return None
